@@ -46,6 +46,8 @@ Depth1 == {Un(a, b) : a \in Prims2, b \in Prims2} \cup {Cu(a, b) : a \in Prims2,
           \cup {An(a, b) : a \in Prims2, b \in Prims2}
           \cup {Tr(a, t) : a \in Prims2, t \in TransVecs} \cup {Ro(a, m, p) : a \in Prims2, m \in Rots, p \in RotPts}
           \cup {Pr(a, i) : a \in Prims2, i \in Ints} \cup {Pr(DepCir, i) : i \in Ints}
+          \cup {Pr(i, Tr(a, t)) : i \in Ints, a \in {Cir(V2(0, 0), A0(6)), Par(V2(0, 0), V2(8, 0), V2(0, 8))}, t \in TransVecs}    \* transformed second factor
+          \cup {Pr(i, Ro(a, "p345", p)) : i \in Ints, a \in {Tri(V2(0, 0), V2(10, 0), V2(0, 8))}, p \in RotPts}
 Exh == Prims2 \cup Ints \cup {Sph, SphT} \cup {x \in Depth1 : x.k \notin {"union", "cut", "and"} \/ x.l # x.r}
 
 \* ---- random growth
